@@ -573,7 +573,7 @@ def method_call(self, st, base, attr, args, node):
     # ---- containers on the heap
     if is_ref(base.ty):
         cls = base.ty[1]
-        if cls in ("deque", "list_str", "list_ref"):
+        if cls == "deque" or cls.startswith("list_"):
             items = self.read_field(st, base, cls, "items")
             n = z3.Length(items.t)
             if attr == "popleft" or (attr == "pop" and args and isinstance(node.args[0], ast.Constant) and node.args[0].value == 0):
